@@ -28,3 +28,23 @@ package x509
 //@   (requires inside (and (bvsle 0 offset) (bvsle offset (len ber))))
 //@   (ensures room (=> (isnil result.1) (bvsle (bvadd offset 2) (len ber)))))
 //@ (func ber2der sweep)
+
+// Hexadecimal key forms (utils.go).  The public form is 0x04 || X || Y with both coordinates padded to 32 bytes:
+// always 130 hexadecimal digits for coordinates below 2^256.
+//@ (func zeroByteSlice
+//@   (fresh result)
+//@   (ensures len (and (= (len result) 32) (= (cap result) 32) (= (off result) 0))))
+//@ (func WritePublicKeyToHex
+//@   (uses "big" "big:axioms")
+//@   (requires key (and (not (isnil key)) (not (isnil (field key X))) (not (isnil (field key Y)))))
+//@   (requires range (and (<= 0 (bigval (field key X))) (< (bigval (field key X)) 115792089237316195423570985008687907853269984665640564039457584007913129639936)
+//@                        (<= 0 (bigval (field key Y))) (< (bigval (field key Y)) 115792089237316195423570985008687907853269984665640564039457584007913129639936)))
+//@   (ensures len (= (len result) 130)))
+//@ (func WritePrivateKeyToHex
+//@   (uses "big" "big:axioms")
+//@   (requires key (and (not (isnil key)) (not (isnil (field key D)))))
+//@   (ensures len (=> (and (<= 0 (bigval (field key D))) (< (bigval (field key D)) 115792089237316195423570985008687907853269984665640564039457584007913129639936)) (bvsle (len result) 64))))
+//@ (func ReadPublicKeyFromHex sweep
+//@   (ensures both (= (isnil result.0) (not (isnil result.1)))))
+//@ (func ReadPrivateKeyFromHex sweep
+//@   (ensures both (= (isnil result.0) (not (isnil result.1)))))
